@@ -1,5 +1,6 @@
 (* C13 — Key IDs are the spec's hash of the key's PASERK text, stable, domain-separated. *)
-From PV Require Import Bytes Result Base64 Text TextProofs Oracle Keys KeysProofs KeysProofs2 ToyOracle.
+From PV Require Import Bytes Result Base64 Text TextProofs Oracle Keys KeysProofs KeysProofs2 ToyOracle KeyIdRules.
+From PV.Gen Require Import KeyIdImpls.
 Local Open Scope list_scope.
 
 (* the id is, by definition of the model (mirroring KeyId::from and IdVersion::hash_key), the 33-byte digest
@@ -59,6 +60,29 @@ Theorem C13_equal_ids_are_collisions : forall O b k k' obj obj' id text text',
   paserk_ver b ++ id_hdr k ++ text <> paserk_ver b ++ id_hdr k' ++ text'.
 Proof. exact equal_ids_are_collisions. Qed.
 
+(* ---- equality, ordering and hashing of key ids agree with their bytes: the hand-written impls in id.rs delegate
+        to the byte array (their bodies are regenerated from the source on every run), and byte-array equality /
+        lexicographic order / hashing have the laws callers rely on ---- *)
+Theorem C13_keyid_impls_delegate_to_bytes :
+  gen_keyid_fields = expected_keyid_fields /\ gen_keyid_impls = expected_keyid_impls.
+Proof. exact keyid_impls_delegate. Qed.
+Theorem C13_keyid_eq_is_byte_equality : forall a b, keyid_eq a b = true <-> a = b.
+Proof. exact keyid_eq_iff. Qed.
+Theorem C13_keyid_ord_consistent_with_eq : forall a b, keyid_cmp a b = Eq <-> keyid_eq a b = true.
+Proof. exact keyid_ord_consistent_with_eq. Qed.
+Theorem C13_keyid_cmp_antisymmetric : forall a b, keyid_cmp b a = CompOpp (keyid_cmp a b).
+Proof. exact keyid_cmp_antisym. Qed.
+Theorem C13_keyid_cmp_transitive : forall a b c, keyid_cmp a b = Lt -> keyid_cmp b c = Lt -> keyid_cmp a c = Lt.
+Proof. exact keyid_cmp_trans. Qed.
+Theorem C13_keyid_hash_respects_eq : forall (H : Type) (hasher : bytes -> H) a b, keyid_eq a b = true -> hasher a = hasher b.
+Proof. exact @keyid_hash_respects_eq. Qed.
+
+Print Assumptions C13_keyid_impls_delegate_to_bytes.
+Print Assumptions C13_keyid_eq_is_byte_equality.
+Print Assumptions C13_keyid_ord_consistent_with_eq.
+Print Assumptions C13_keyid_cmp_antisymmetric.
+Print Assumptions C13_keyid_cmp_transitive.
+Print Assumptions C13_keyid_hash_respects_eq.
 Print Assumptions C13_id_definition.
 Print Assumptions C13_id_is_33_bytes.
 Print Assumptions C13_v3_backends_same_id.
